@@ -48,7 +48,7 @@ def all_harnesses():
                 for si, (s, desc) in enumerate(situations(cap)):
                     for gone in (False, True):
                         pn = extra.replace(", ", "_").replace(" ", "")
-                        core = cap == 2 and ((not gone and si in (0, 3, 4)) or (gone and si in (1, 3))) and (ei == 0 or (key in ("delay", "resamp") and ei == 1))
+                        core = cap == 2 and ((not gone and si in (3, 4)) or (gone and si == 3) or (not gone and si == 0 and key in ("delay", "rtlsdr"))) and (ei == 0 or (key in ("delay", "resamp") and ei == 1))
                         hs.append(Harness(f"c09_{key}{pn}_c{cap}_s{si}_{'gone' if gone else 'alive'}",
                                           f"crate::c09::{fn}(4, {cap}, {rs_sched(s)}, {str(gone).lower()}{extra})", unwind=12,
                                           unit=unit + "::work verdict", timeout=900,
@@ -60,7 +60,16 @@ def all_harnesses():
             for gone in (False, True):
                 hs.append(Harness(f"c09_audec_s{si}_o{cap_out}_{'gone' if gone else 'alive'}", f"crate::c09::au_decode({rs_sched(s)}, 40, {cap_out}, {str(gone).lower()})",
                                   unwind=44, unit="AuDecode::work verdict", timeout=1500,
-                                  shape={"block": "AuDecode", "situation": desc, "cap_out": cap_out, "upstream_gone": gone}, core=(si in (0, 1) and cap_out == 4 and not gone)))
+                                  shape={"block": "AuDecode", "situation": desc, "cap_out": cap_out, "upstream_gone": gone}, core=False))
+    for ci, (cap_in, cap_out) in enumerate(((3, 2), (4, 1))):
+        for si, (s, desc) in enumerate((([(1, 0)], "one byte of a sample"), ([(3, 0)], "three bytes: one sample + one byte"), ([(3, 0), (0, 0)], "one byte left over"),
+                                        ([(cap_in, 0), (cap_in, 0)], "output full"), ([(2, 0), (1, 1)], "odd remainder after progress"))):
+            for gone in (False, True):
+                hs.append(Harness(f"c09_audata_i{cap_in}o{cap_out}_s{si}_{'gone' if gone else 'alive'}",
+                                  f"crate::c09::au_decode_data(4, {cap_in}, {cap_out}, {rs_sched(s)}, {str(gone).lower()})", unwind=12,
+                                  unit="AuDecode::work verdict (data state)", timeout=900,
+                                  shape={"block": "AuDecode(data)", "cap_in": cap_in, "cap_out": cap_out, "situation": desc, "upstream_gone": gone},
+                                  core=(ci == 0 and si in (0, 2, 4) and not gone)))
     for cap in (1, 2):
         for ln in (1, 2, 3):
             for inf in (False, True):
